@@ -21,6 +21,17 @@ import (
 func buildClockOverlay(repo, work string, extra map[string]string) (string, int, error) {
 	ovDir := filepath.Join(work, "overlay")
 	replace := map[string]string{}
+	// VERIF_MUTANT_OVERLAY="/repo/weed/a.go=/tmp/m/a.go,...": sensitivity runs substitute
+	// mutated copies of SUT files at build time; /repo itself is never edited for this
+	mutants := map[string]string{}
+	for _, kv := range strings.Split(os.Getenv("VERIF_MUTANT_OVERLAY"), ",") {
+		if i := strings.Index(kv, "="); i > 0 {
+			mutants[kv[:i]] = kv[i+1:]
+		}
+	}
+	if len(mutants) > 0 && os.Getenv("VERIF_BUILD_WORK") == "" {
+		return "", 0, fmt.Errorf("VERIF_MUTANT_OVERLAY needs VERIF_BUILD_WORK set to a private directory")
+	}
 	rewritten := 0
 	root := filepath.Join(repo, "weed")
 	err := filepath.Walk(root, func(p string, info os.FileInfo, err error) error {
@@ -36,11 +47,18 @@ func buildClockOverlay(repo, work string, extra map[string]string) (string, int,
 		if !strings.HasSuffix(p, ".go") || strings.HasSuffix(p, "_test.go") || strings.HasSuffix(p, ".pb.go") {
 			return nil
 		}
-		src, err := os.ReadFile(p)
+		readFrom := p
+		if m, ok := mutants[p]; ok {
+			readFrom = m
+		}
+		src, err := os.ReadFile(readFrom)
 		if err != nil {
 			return err
 		}
 		if !bytes.Contains(src, []byte("Now")) {
+			if readFrom != p {
+				replace[p] = readFrom
+			}
 			return nil
 		}
 		out, changed, err := rewriteTimeNow(p, src)
@@ -48,6 +66,9 @@ func buildClockOverlay(repo, work string, extra map[string]string) (string, int,
 			return fmt.Errorf("clock overlay: %s: %v", p, err)
 		}
 		if !changed {
+			if readFrom != p {
+				replace[p] = readFrom
+			}
 			return nil
 		}
 		rel, _ := filepath.Rel(repo, p)
